@@ -17,7 +17,8 @@
   False of the code today, with kernel-checked counterexamples that the harness replays on the real
   code as known findings: `a == b → hash(a) == hash(b)` (`eq_hash_statement_false`, six
   `eq_hash_counterexample_*`), hash of a deep / unpickled copy with a re-ordered set
-  (`deepcopy_hash_counterexample`, `pickle_hash_counterexample`).  `eq_hash_partial` proves the implication on the region
+  (`deepcopy_hash_counterexample`, `pickle_hash_counterexample`), `_none_fields` lost by pickle
+  (`pickle_counterexample_nones`).  `eq_hash_partial` proves the implication on the region
   that excludes exactly those spellings.
 -/
 import TypedpyModel.Lemmas.EqLemmas
@@ -44,28 +45,37 @@ theorem lookup_mem' {α} (k : String) : ∀ (l : List (String × α)) (v : α),
     · simp only [hk, Bool.false_eq_true, if_false] at h
       exact List.mem_cons_of_mem _ (lookup_mem' k rest v h)
 
-/-- a name that neither `__dict__` mentions reads back the same on both sides -/
-theorem getA_absent (d : Attrs) (a b : Inst) (k : String)
+theorem namesEq_contains (a b : List String) (h : namesEq a b = true) (k : String) :
+    a.contains k = b.contains k := by
+  simp only [namesEq, Bool.and_eq_true, List.all_eq_true, List.contains_eq_mem, decide_eq_true_eq] at h
+  cases ha : a.contains k <;> cases hb : b.contains k <;> try rfl
+  · have := h.2 k (by simpa using hb); simp_all
+  · have := h.1 k (by simpa using ha); simp_all
+
+/-- a name that neither `__dict__` mentions reads back the same on both sides (instances of one
+    class with the same `_none_fields`) -/
+theorem getA_absent (d : EqCtx) (a b : Inst) (k : String) (hu : a.undef = b.undef)
+    (hn : namesEq a.nones b.nones = true)
     (ha : lookup k a.attrs = none) (hb : lookup k b.attrs = none) : getA d a k = getA d b k := by
-  simp only [getA, ha, hb]
+  simp only [getA, ha, hb, hu, namesEq_contains _ _ hn k]
 
 /-- **C11 (field-wise)**: `a == b` iff same class, every name (field, extra attribute, or neither)
     reads back `==` on both, and the `_none_fields` agree -/
-theorem instEq_fieldwise (d : Attrs) (a b : Inst) :
+theorem instEq_fieldwise (d : EqCtx) (a b : Inst) :
     instEq d a b = true ↔ FieldwiseEq d a b := by
   unfold instEq FieldwiseEq
   simp only [Bool.and_eq_true, beq_iff_eq, List.all_eq_true, List.mem_append]
   constructor
-  · rintro ⟨⟨hc, hall⟩, hn⟩
-    refine ⟨hc, fun k => ?_, hn⟩
+  · rintro ⟨⟨⟨hc, hu⟩, hall⟩, hn⟩
+    refine ⟨hc, hu, fun k => ?_, hn⟩
     cases ha : lookup k a.attrs with
     | some v => exact hall (k, v) (Or.inl (lookup_mem' k _ v ha))
     | none =>
       cases hb : lookup k b.attrs with
       | some w => exact hall (k, w) (Or.inr (lookup_mem' k _ w hb))
-      | none => rw [getA_absent d a b k ha hb]; exact pyEq_refl _
-  · rintro ⟨hc, hall, hn⟩
-    exact ⟨⟨hc, fun kv _ => hall kv.1⟩, hn⟩
+      | none => rw [getA_absent d a b k hu hn ha hb]; exact pyEq_refl _
+  · rintro ⟨hc, hu, hall, hn⟩
+    exact ⟨⟨⟨hc, hu⟩, fun kv _ => hall kv.1⟩, hn⟩
 
 /-! ### `==` is an equivalence on instances whose values satisfy the representation invariants -/
 
@@ -82,31 +92,34 @@ theorem namesEq_trans (a b c : List String) (h1 : namesEq a b = true) (h2 : name
   exact ⟨fun x hx => h2.1 x (h1.1 x hx), fun x hx => h1.2 x (h2.2 x hx)⟩
 
 /-- **C11 (reflexive)**, no side condition -/
-theorem instEq_refl (d : Attrs) (a : Inst) : instEq d a a = true :=
-  (instEq_fieldwise d a a).2 ⟨rfl, fun _ => pyEq_refl _, namesEq_refl _⟩
+theorem instEq_refl (d : EqCtx) (a : Inst) : instEq d a a = true :=
+  (instEq_fieldwise d a a).2 ⟨rfl, rfl, fun _ => pyEq_refl _, namesEq_refl _⟩
 
 /-- the instance's attribute values (and the field defaults) satisfy `okVal` -/
-def okInst (d : Attrs) (a : Inst) : Bool := okAttrs a.attrs && okAttrs d
+def okInst (d : EqCtx) (a : Inst) : Bool := okAttrs a.attrs && okAttrs d.defaults
 
-theorem okVal_getA (d : Attrs) (a : Inst) (k : String) (h : okInst d a = true) :
+theorem okVal_getA (d : EqCtx) (a : Inst) (k : String) (h : okInst d a = true) :
     okVal (getA d a k) = true := by
   simp only [okInst, Bool.and_eq_true, okAttrs_iff] at h
   unfold getA
   cases ha : lookup k a.attrs with
   | some v => exact h.1 (k, v) (lookup_mem' k _ v ha)
   | none =>
-    cases hd : lookup k d with
-    | some v => exact h.2 (k, v) (lookup_mem' k _ v hd)
-    | none => rfl
+    simp only
+    split
+    · rfl
+    · cases hd : lookup k d.defaults with
+      | some v => exact h.2 (k, v) (lookup_mem' k _ v hd)
+      | none => rfl
 
 /-- **C11 (symmetric)** -/
-theorem instEq_symm (d : Attrs) (a b : Inst) (ha : okInst d a = true) (hb : okInst d b = true) :
+theorem instEq_symm (d : EqCtx) (a b : Inst) (ha : okInst d a = true) (hb : okInst d b = true) :
     instEq d a b = instEq d b a := by
   have key : ∀ a b : Inst, okInst d a = true → okInst d b = true → instEq d a b = true →
       instEq d b a = true := by
     intro a b ha hb h
-    obtain ⟨hc, hall, hn⟩ := (instEq_fieldwise d a b).1 h
-    exact (instEq_fieldwise d b a).2 ⟨hc.symm,
+    obtain ⟨hc, hu, hall, hn⟩ := (instEq_fieldwise d a b).1 h
+    exact (instEq_fieldwise d b a).2 ⟨hc.symm, hu.symm,
       fun k => pyEq_symm _ (okVal_getA d a k ha) _ (okVal_getA d b k hb) (hall k),
       by rw [namesEq_symm]; exact hn⟩
   cases h1 : instEq d a b <;> cases h2 : instEq d b a <;> try rfl
@@ -114,11 +127,11 @@ theorem instEq_symm (d : Attrs) (a b : Inst) (ha : okInst d a = true) (hb : okIn
   · rw [key a b ha hb h1] at h2; cases h2
 
 /-- **C11 (transitive)**: only the middle instance needs the invariant -/
-theorem instEq_trans (d : Attrs) (a b c : Inst) (hb : okInst d b = true)
+theorem instEq_trans (d : EqCtx) (a b c : Inst) (hb : okInst d b = true)
     (h1 : instEq d a b = true) (h2 : instEq d b c = true) : instEq d a c = true := by
-  obtain ⟨hc1, hall1, hn1⟩ := (instEq_fieldwise d a b).1 h1
-  obtain ⟨hc2, hall2, hn2⟩ := (instEq_fieldwise d b c).1 h2
-  exact (instEq_fieldwise d a c).2 ⟨hc1.trans hc2,
+  obtain ⟨hc1, hu1, hall1, hn1⟩ := (instEq_fieldwise d a b).1 h1
+  obtain ⟨hc2, hu2, hall2, hn2⟩ := (instEq_fieldwise d b c).1 h2
+  exact (instEq_fieldwise d a c).2 ⟨hc1.trans hc2, hu1.trans hu2,
     fun k => pyEq_trans _ _ _ (okVal_getA d b k hb) (hall1 k) (hall2 k),
     namesEq_trans _ _ _ hn1 hn2⟩
 
@@ -127,7 +140,7 @@ theorem instEq_trans (d : Attrs) (a b c : Inst) (hb : okInst d b = true)
 
 /-- the full-strength statement for a rendering `R` of Python's `str()` -/
 def eq_hash_statement (R : Render) : Prop :=
-  ∀ (d : Attrs) (a b : Inst), instEq d a b = true → hashKey R a = hashKey R b
+  ∀ (d : EqCtx) (a b : Inst), instEq d a b = true → hashKey R a = hashKey R b
 
 /-- an example rendering: a float prints its exact ratio (injective, never an int literal) -/
 def exR : Render :=
@@ -136,19 +149,19 @@ def exR : Render :=
 
 /-- finding `eq-not-hash:int-vs-float`: `A(x=1) == A(x=1.0)`, printed `x = 1` / `x = 1.0` -/
 theorem eq_hash_counterexample_int_float :
-    instEq [] { cls := "A", attrs := [("x", .int 1)] } { cls := "A", attrs := [("x", .float ⟨1, 1⟩)] } = true
+    instEq {} { cls := "A", attrs := [("x", .int 1)] } { cls := "A", attrs := [("x", .float ⟨1, 1⟩)] } = true
     ∧ (hashKey exR { cls := "A", attrs := [("x", .int 1)] }
         == hashKey exR { cls := "A", attrs := [("x", .float ⟨1, 1⟩)] }) = false := by decide
 
 /-- finding `eq-not-hash:bool-vs-int`: `A(x=True) == A(x=1)` -/
 theorem eq_hash_counterexample_bool_int :
-    instEq [] { cls := "A", attrs := [("x", .bool true)] } { cls := "A", attrs := [("x", .int 1)] } = true
+    instEq {} { cls := "A", attrs := [("x", .bool true)] } { cls := "A", attrs := [("x", .int 1)] } = true
     ∧ (hashKey exR { cls := "A", attrs := [("x", .bool true)] }
         == hashKey exR { cls := "A", attrs := [("x", .int 1)] }) = false := by decide
 
 /-- finding `eq-not-hash:dict-order`: `A(m={'a': 1, 'b': 2}) == A(m={'b': 2, 'a': 1})` -/
 theorem eq_hash_counterexample_dict_order :
-    instEq [] { cls := "A", attrs := [("m", .dict [(.str "a", .int 1), (.str "b", .int 2)])] }
+    instEq {} { cls := "A", attrs := [("m", .dict [(.str "a", .int 1), (.str "b", .int 2)])] }
               { cls := "A", attrs := [("m", .dict [(.str "b", .int 2), (.str "a", .int 1)])] } = true
     ∧ (hashKey exR { cls := "A", attrs := [("m", .dict [(.str "a", .int 1), (.str "b", .int 2)])] }
         == hashKey exR { cls := "A", attrs := [("m", .dict [(.str "b", .int 2), (.str "a", .int 1)])] }) = false := by
@@ -157,21 +170,21 @@ theorem eq_hash_counterexample_dict_order :
 /-- finding `eq-not-hash:set-order`: `A(s={0, 8}) == A(s={8, 0})` (colliding elements iterate in
     insertion order) -/
 theorem eq_hash_counterexample_set_order :
-    instEq [] { cls := "A", attrs := [("s", .set false [.int 0, .int 8])] }
+    instEq {} { cls := "A", attrs := [("s", .set false [.int 0, .int 8])] }
               { cls := "A", attrs := [("s", .set false [.int 8, .int 0])] } = true
     ∧ (hashKey exR { cls := "A", attrs := [("s", .set false [.int 0, .int 8])] }
         == hashKey exR { cls := "A", attrs := [("s", .set false [.int 8, .int 0])] }) = false := by decide
 
 /-- finding `eq-not-hash:none-vs-absent`: `A(x=1, extra=None) == A(x=1)` -/
 theorem eq_hash_counterexample_none_absent :
-    instEq [] { cls := "A", attrs := [("x", .int 1), ("extra", .none)] } { cls := "A", attrs := [("x", .int 1)] } = true
+    instEq {} { cls := "A", attrs := [("x", .int 1), ("extra", .none)] } { cls := "A", attrs := [("x", .int 1)] } = true
     ∧ (hashKey exR { cls := "A", attrs := [("x", .int 1), ("extra", .none)] }
         == hashKey exR { cls := "A", attrs := [("x", .int 1)] }) = false := by decide
 
 /-- finding `eq-not-hash:set-vs-frozenset`: `A(s=set()) == A(s=frozenset())`; Python prints a
     frozenset as `frozenset(…)`, typedpy prints a set as `{…}` -/
 theorem eq_hash_counterexample_set_frozenset :
-    instEq [] { cls := "A", attrs := [("s", .set false [])] } { cls := "A", attrs := [("s", .set true [])] } = true
+    instEq {} { cls := "A", attrs := [("s", .set false [])] } { cls := "A", attrs := [("s", .set true [])] } = true
     ∧ (hashKey { exR with other := fun _ => "frozenset()" } { cls := "A", attrs := [("s", .set false [])] }
         == hashKey { exR with other := fun _ => "frozenset()" } { cls := "A", attrs := [("s", .set true [])] }) = false := by
   decide
@@ -179,7 +192,7 @@ theorem eq_hash_counterexample_set_frozenset :
 /-- the full statement fails for the example rendering -/
 theorem eq_hash_statement_false : ¬ eq_hash_statement exR := by
   intro h
-  have h1 := h [] { cls := "A", attrs := [("x", .int 1)] } { cls := "A", attrs := [("x", .float ⟨1, 1⟩)] }
+  have h1 := h {} { cls := "A", attrs := [("x", .int 1)] } { cls := "A", attrs := [("x", .float ⟨1, 1⟩)] }
     eq_hash_counterexample_int_float.1
   have h2 := eq_hash_counterexample_int_float.2
   rw [h1] at h2
@@ -188,7 +201,7 @@ theorem eq_hash_statement_false : ¬ eq_hash_statement exR := by
 /-! ### copy -/
 
 /-- **C11 (copy)**: `copy.copy(x) == x` (both ways) and it prints / hashes like `x` -/
-theorem copy_eq (R : Render) (d : Attrs) (x : Inst) :
+theorem copy_eq (R : Render) (d : EqCtx) (x : Inst) :
     instEq d x (copyI x) = true ∧ instEq d (copyI x) x = true ∧ hashKey R (copyI x) = hashKey R x :=
   ⟨instEq_refl d x, instEq_refl d x, rfl⟩
 
@@ -268,7 +281,7 @@ theorem unpickled_frame (tbl : List MethodRec) (O : Oracles) (c : ClassOpts)
 theorem pickle_state (S : SetOrder) (x : Inst) (hi : x.instantiated = true) (hn : x.nones = [])
     (hfix : rebuildAttrs S x.attrs = x.attrs) : pickleI S x = x := by
   cases x with
-  | mk cls attrs inst nones =>
+  | mk cls attrs inst nones undef =>
     simp only at hi hn hfix
     simp only [pickleI, hfix, hi, hn]
 
@@ -302,7 +315,8 @@ theorem unpickled_immutable_protected (tbl : List MethodRec) (O : Oracles) (c : 
     (fields : List (String × FieldDecl)) (S : SetOrder) (x : Inst) (f : String) (v : PyVal)
     (hc : c.immutable = true) :
     stepI tbl O c fields (pickleI S x) (.setattr f v) = (pickleI S x, .err .valueErr) := by
-  simp only [stepI, pickleI, hc, Bool.and_self, setattrStep, if_true]
+  simp only [stepI, pickleI, hc, Bool.and_self, setattrStep, setattrUndef, if_true]
+  split <;> rfl
 
 /-- non-vacuity / former finding `unpickled:immutable-setattr-unprotected`: assignment is refused
     on the instance and on its unpickled copy alike, and the copy `==` the original -/
@@ -310,13 +324,13 @@ theorem unpickled_immutable_example :
     (stepI Generated.wrappers exO exImm exImmFields exImmInst (.setattr "x" (.int 2))).2 = .err .valueErr
     ∧ (stepI Generated.wrappers exO exImm exImmFields (pickleI id exImmInst) (.setattr "x" (.int 2))).2
         = .err .valueErr
-    ∧ instEq [] exImmInst (pickleI id exImmInst) = true := by decide
+    ∧ instEq {} exImmInst (pickleI id exImmInst) = true := by decide
 
 /-- former finding `pickle-not-eq:extra-attrs`: additional properties (also inside a nested
     Structure, also `None`-valued ones) survive the round trip; the copy `==` the original and
     prints alike -/
 theorem pickle_keeps_extras_example :
-    instEq [] { cls := "A", attrs := [("x", .int 1), ("extra", .int 5), ("n", .inst "B" [("y", .none), ("e", .str "s")])] }
+    instEq {} { cls := "A", attrs := [("x", .int 1), ("extra", .int 5), ("n", .inst "B" [("y", .none), ("e", .str "s")])] }
       (pickleI id { cls := "A", attrs := [("x", .int 1), ("extra", .int 5), ("n", .inst "B" [("y", .none), ("e", .str "s")])] }) = true
     ∧ (hashKey exR { cls := "A", attrs := [("x", .int 1), ("extra", .int 5), ("n", .inst "B" [("y", .none), ("e", .str "s")])] }
         == hashKey exR (pickleI id { cls := "A", attrs := [("x", .int 1), ("extra", .int 5), ("n", .inst "B" [("y", .none), ("e", .str "s")])] })) = true := by
@@ -325,7 +339,7 @@ theorem pickle_keeps_extras_example :
 /-- finding `deepcopy-hash-differs:set-order` / `pickle-hash-differs:set-order`: a rebuilt set may
     iterate in another order; the copy is `==` but prints differently -/
 theorem deepcopy_hash_counterexample :
-    instEq [] { cls := "A", attrs := [("s", .set false [.str "a", .int 3])] }
+    instEq {} { cls := "A", attrs := [("s", .set false [.str "a", .int 3])] }
       (deepcopyI { name := "A", required := [] } List.reverse { cls := "A", attrs := [("s", .set false [.str "a", .int 3])] }) = true
     ∧ (hashKey exR { cls := "A", attrs := [("s", .set false [.str "a", .int 3])] }
         == hashKey exR (deepcopyI { name := "A", required := [] } List.reverse
@@ -340,7 +354,7 @@ theorem deepcopy_hash_counterexample :
     for every rendering of floats / foreign objects that is a function of the value.
     (`sameSpellI` alone already forces the conclusion; `heq` records that the region lies inside
     the statement's domain.) -/
-theorem eq_hash_partial (R : Render) (hR : RenderRespects R) (d : Attrs) (a b : Inst)
+theorem eq_hash_partial (R : Render) (hR : RenderRespects R) (d : EqCtx) (a b : Inst)
     (ha : keysDistinct (a.attrs.map (·.1)) = true) (hb : keysDistinct (b.attrs.map (·.1)) = true)
     (heq : instEq d a b = true) (hs : sameSpellI a b = true) : hashKey R a = hashKey R b :=
   hashKey_of_sameSpell R hR a b ha hb hs
@@ -350,7 +364,7 @@ theorem eq_hash_partial (R : Render) (hR : RenderRespects R) (d : Attrs) (a b : 
 theorem eq_hash_partial_example :
     sameSpellI { cls := "A", attrs := [("x", .float ⟨1, 2⟩), ("m", .dict [(.str "a", .list [.int 1, .bool true])])] }
                { cls := "A", attrs := [("m", .dict [(.str "a", .list [.int 1, .bool true])]), ("x", .float ⟨2, 4⟩)] } = true
-    ∧ instEq [] { cls := "A", attrs := [("x", .float ⟨1, 2⟩), ("m", .dict [(.str "a", .list [.int 1, .bool true])])] }
+    ∧ instEq {} { cls := "A", attrs := [("x", .float ⟨1, 2⟩), ("m", .dict [(.str "a", .list [.int 1, .bool true])])] }
                { cls := "A", attrs := [("m", .dict [(.str "a", .list [.int 1, .bool true])]), ("x", .float ⟨2, 4⟩)] } = true
     ∧ (hashKey { exR with float := fun _ => "0.5" }
           { cls := "A", attrs := [("x", .float ⟨1, 2⟩), ("m", .dict [(.str "a", .list [.int 1, .bool true])])] }
@@ -373,71 +387,84 @@ theorem eq_hash_region_excludes_findings :
 
 /-! ### deepcopy and pickle -/
 
-theorem filter_all_true {α} (l : List α) : l.filter (fun _ => true) = l :=
-  List.filter_eq_self.2 (fun _ _ => rfl)
+theorem rebuildV_isNone (S : SetOrder) (v : PyVal) : (rebuildV S v).isNone = v.isNone := by
+  cases v <;> rfl
 
-theorem getA_map (d : Attrs) (f : PyVal → PyVal) (x : Inst) (k : String) (i : Bool) (n : List String) :
-    getA d { cls := x.cls, attrs := x.attrs.map (fun p => (p.1, f p.2)), instantiated := i, nones := n } k
-      = match lookup k x.attrs with
-        | some v => f v
-        | none => match lookup k d with
-          | some dv => dv
-          | none => .none := by
-  simp only [getA, lookup_map_val f k x.attrs]
-  cases lookup k x.attrs <;> rfl
-
-theorem instEq_map (d : Attrs) (f : PyVal → PyVal) (x : Inst) (i : Bool) (n : List String)
+theorem instEq_map (d : EqCtx) (f : PyVal → PyVal) (x : Inst) (i : Bool) (n : List String)
     (hf : ∀ p ∈ x.attrs, pyEq p.2 (f p.2) = true) (hn : namesEq x.nones n = true) :
-    instEq d x { cls := x.cls, attrs := x.attrs.map (fun p => (p.1, f p.2)), instantiated := i, nones := n }
-      = true := by
-  refine (instEq_fieldwise d x _).2 ⟨rfl, fun k => ?_, hn⟩
-  rw [getA_map]
-  unfold getA
+    instEq d x { cls := x.cls, attrs := x.attrs.map (fun p => (p.1, f p.2)), instantiated := i, nones := n,
+                 undef := x.undef } = true := by
+  refine (instEq_fieldwise d x _).2 ⟨rfl, rfl, fun k => ?_, hn⟩
   cases hl : lookup k x.attrs with
-  | some v => exact hf (k, v) (lookup_mem' k _ v hl)
-  | none => exact pyEq_refl _
+  | some v =>
+    have h1 : getA d x k = v := by simp only [getA, hl]
+    have h2 : getA d { cls := x.cls, attrs := x.attrs.map (fun p => (p.1, f p.2)), instantiated := i,
+                       nones := n, undef := x.undef } k = f v := by
+      simp only [getA, lookup_map_val f k x.attrs, hl, Option.map]
+    rw [h1, h2]; exact hf (k, v) (lookup_mem' k _ v hl)
+  | none =>
+    rw [← getA_absent d x { cls := x.cls, attrs := x.attrs.map (fun p => (p.1, f p.2)), instantiated := i,
+                             nones := n, undef := x.undef } k rfl hn hl
+        (by simp only [lookup_map_val f k x.attrs, hl, Option.map])]
+    exact pyEq_refl _
 
-/-- **C11 (deepcopy)**: `copy.deepcopy(x) == x`, for every iteration order the rebuilt sets come
-    out in (class that does not ignore `None`, or an immutable class, which is returned as is) -/
-theorem deepcopy_eq (S : SetOrder) (hS : MemPreserving S) (c : ClassOpts) (d : Attrs) (x : Inst)
-    (hign : c.ignoreNone = false ∨ c.immutable = true) : instEq d x (deepcopyI c S x) = true := by
+/-- no `__dict__` entry that `__setattr__` would swallow on re-assignment: a `None` under a
+    non-required name on a class that ignores `None` or has `_enable_undefined_value` (such an entry
+    cannot be created through `__setattr__` in the first place) -/
+def noDrop (c : ClassOpts) (x : Inst) : Bool :=
+  x.attrs.all (fun kv => !(kv.2.isNone && (c.ignoreNone || x.undef) && !c.required.contains kv.1))
+
+theorem deepcopy_attrs (S : SetOrder) (c : ClassOpts) (x : Inst) (hnd : noDrop c x = true) :
+    (rebuildAttrs S x.attrs).filter
+        (fun kv => !(kv.2.isNone && (c.ignoreNone || x.undef) && !c.required.contains kv.1))
+      = x.attrs.map (fun p => (p.1, rebuildV S p.2)) := by
+  rw [rebuildAttrs_eq_map]
+  apply List.filter_eq_self.2
+  intro q hq
+  obtain ⟨p, hp, rfl⟩ := List.mem_map.1 hq
+  simp only [noDrop, List.all_eq_true] at hnd
+  simpa only [rebuildV_isNone] using hnd p hp
+
+/-- **C11 (deepcopy)**: `copy.deepcopy(x) == x` — `_none_fields` included — for every iteration
+    order the rebuilt sets come out in -/
+theorem deepcopy_eq (S : SetOrder) (hS : MemPreserving S) (c : ClassOpts) (d : EqCtx) (x : Inst)
+    (hnd : noDrop c x = true ∨ c.immutable = true) : instEq d x (deepcopyI c S x) = true := by
   unfold deepcopyI
   cases hi : c.immutable with
   | true => simp only [if_true]; exact instEq_refl d x
   | false =>
-    have hign' : c.ignoreNone = false := by
-      rcases hign with h | h
+    have hnd' : noDrop c x = true := by
+      rcases hnd with h | h
       · exact h
       · rw [hi] at h; cases h
-    simp only [Bool.false_eq_true, if_false, hign', Bool.and_false, Bool.false_and, Bool.not_false,
-      filter_all_true]
-    rw [rebuildAttrs_eq_map]
+    simp only [Bool.false_eq_true, if_false, deepcopy_attrs S c x hnd']
     exact instEq_map d (rebuildV S) x x.instantiated x.nones
       (fun p _ => pyEq_rebuildV S hS p.2) (namesEq_refl _)
 
 /-- … and it prints / hashes like `x` when the rebuilt sets keep their iteration order
     (otherwise not: `deepcopy_hash_counterexample`) -/
 theorem deepcopy_hash_partial (R : Render) (c : ClassOpts) (x : Inst)
-    (hign : c.ignoreNone = false ∨ c.immutable = true) :
+    (hnd : noDrop c x = true ∨ c.immutable = true) :
     deepcopyI c id x = x ∧ hashKey R (deepcopyI c id x) = hashKey R x := by
   have h : deepcopyI c id x = x := by
     unfold deepcopyI
     cases hi : c.immutable with
     | true => simp
     | false =>
-      have hign' : c.ignoreNone = false := by
-        rcases hign with h | h
+      have hnd' : noDrop c x = true := by
+        rcases hnd with h | h
         · exact h
         · rw [hi] at h; cases h
-      simp only [Bool.false_eq_true, if_false, hign', Bool.and_false, Bool.false_and, Bool.not_false,
-        filter_all_true]
-      rw [rebuildAttrs_id]
+      simp only [Bool.false_eq_true, if_false, deepcopy_attrs id c x hnd']
+      have : x.attrs.map (fun p => (p.1, rebuildV id p.2)) = x.attrs := by
+        rw [← rebuildAttrs_eq_map, rebuildAttrs_id]
+      rw [this]
   exact ⟨h, by rw [h]⟩
 
 /-- **C11 (pickle)**: the unpickled copy `==` the original — additional properties at every level
     included — for every iteration order the rebuilt sets come out in.  (`_none_fields` is not part
     of the pickled state: the copy's is empty, `hn`.) -/
-theorem pickle_eq (S : SetOrder) (hS : MemPreserving S) (d : Attrs) (x : Inst) (hn : x.nones = []) :
+theorem pickle_eq (S : SetOrder) (hS : MemPreserving S) (d : EqCtx) (x : Inst) (hn : x.nones = []) :
     instEq d x (pickleI S x) = true := by
   unfold pickleI
   rw [rebuildAttrs_eq_map]
@@ -452,10 +479,73 @@ theorem pickle_hash_partial (R : Render) (x : Inst) (hn : x.nones = []) :
 
 /-- finding `pickle-hash-differs:set-order`, kernel-checked for pickle itself -/
 theorem pickle_hash_counterexample :
-    instEq [] { cls := "A", attrs := [("s", .set false [.str "a", .int 3])] }
+    instEq {} { cls := "A", attrs := [("s", .set false [.str "a", .int 3])] }
       (pickleI List.reverse { cls := "A", attrs := [("s", .set false [.str "a", .int 3])] }) = true
     ∧ (hashKey exR { cls := "A", attrs := [("s", .set false [.str "a", .int 3])] }
         == hashKey exR (pickleI List.reverse { cls := "A", attrs := [("s", .set false [.str "a", .int 3])] })) = false := by
   decide
+
+/-! ### classes with `_enable_undefined_value`: "never set" vs "explicitly `None`" -/
+
+def exU : EqCtx := { fields := ["a", "b"] }
+def exUC : ClassOpts := { name := "C", required := [], addl := false, accepts := ["C"] }
+def exUFields : List (String × FieldDecl) := [("a", .integer {}), ("b", .integer {})]
+/-- `C(a=1)`: `b` never set, reads `Undefined` -/
+def exUnset : Inst := { cls := "C", attrs := [("a", .int 1)], undef := true }
+/-- `C(a=1, b=None)`: `b` recorded in `_none_fields`, reads `None` -/
+def exNone : Inst := { cls := "C", attrs := [("a", .int 1)], nones := ["b"], undef := true }
+
+/-- the two are told apart by `==` in both directions (symmetry is `instEq_symm`, which covers
+    `_none_fields`), by the values read back, and by the printed form; assigning `None` turns the
+    first into the second -/
+theorem undef_unset_vs_none_example :
+    instEq exU exUnset exNone = false ∧ instEq exU exNone exUnset = false
+    ∧ PyVal.pyEq (getA exU exUnset "b") undefinedV = true ∧ PyVal.pyEq (getA exU exNone "b") .none = true
+    ∧ (hashKey exR exUnset == hashKey exR exNone) = false
+    ∧ instEq exU (stepI Generated.wrappers exO exUC exUFields exUnset (.setattr "b" .none)).1 exNone = true
+    ∧ instEq exU (stepI Generated.wrappers exO exUC exUFields exNone (.setattr "b" (.int 2))).1
+        { cls := "C", attrs := [("a", .int 1), ("b", .int 2)], undef := true } = true := by
+  decide
+
+/-- on such a class `x.f = None` for a non-required field of a mutable instance is never stored:
+    the name is recorded in `_none_fields` and `__dict__` is left as it is -/
+theorem setattr_none_recorded (tbl : List MethodRec) (O : Oracles) (c : ClassOpts)
+    (fields : List (String × FieldDecl)) (x : Inst) (f : String) (fd : FieldDecl)
+    (hu : x.undef = true) (hm : c.immutable = false) (hf : lookup f fields = some fd)
+    (hr : c.required.contains f = false) :
+    stepI tbl O c fields x (.setattr f .none) = ({ x with nones := addName f x.nones }, .ok) := by
+  simp only [stepI, setattrUndef, hu, hm, hf, hr, PyVal.isNone, if_true, Bool.false_and,
+    Bool.false_eq_true, if_false, Option.isSome, Bool.not_true, Bool.not_false, Bool.and_self,
+    Bool.true_and]
+
+/-- finding `pickle-not-eq:none-fields-lost`: `_none_fields` is not part of the pickled state, so
+    the unpickled copy of `C(a=1, b=None)` is `C(a=1)` — `!=` in both directions (this is exactly
+    the hypothesis `x.nones = []` of `pickle_eq`) -/
+theorem pickle_counterexample_nones :
+    instEq exU exNone (pickleI id exNone) = false ∧ instEq exU (pickleI id exNone) exNone = false
+    ∧ instEq exU (pickleI id exNone) exUnset = true
+    ∧ instEq exU exNone (deepcopyI exUC id exNone) = true ∧ instEq exU exNone (copyI exNone) = true := by
+  decide
+
+/-- finding `eq-vs-readback:none-recorded-over-stored-value`: `x = C(a=1, b=5); x.b = None` only
+    records `b` in `_none_fields`; `__dict__` keeps 5.  Every name then reads back the same as on
+    `C(a=1, b=5)`, yet the two are `!=`: without its `_none_fields` conjunct `instEq_fieldwise` is
+    false of the code -/
+theorem stale_none_counterexample :
+    (stepI Generated.wrappers exO exUC exUFields
+        { cls := "C", attrs := [("a", .int 1), ("b", .int 5)], undef := true } (.setattr "b" .none)).1.nones = ["b"]
+    ∧ (stepI Generated.wrappers exO exUC exUFields
+        { cls := "C", attrs := [("a", .int 1), ("b", .int 5)], undef := true } (.setattr "b" .none)).1.attrs
+        = [("a", .int 1), ("b", .int 5)]
+    ∧ instEq exU { cls := "C", attrs := [("a", .int 1), ("b", .int 5)], nones := ["b"], undef := true }
+                 { cls := "C", attrs := [("a", .int 1), ("b", .int 5)], undef := true } = false
+    ∧ ∀ k, getA exU { cls := "C", attrs := [("a", .int 1), ("b", .int 5)], nones := ["b"], undef := true } k
+         = getA exU { cls := "C", attrs := [("a", .int 1), ("b", .int 5)], undef := true } k := by
+  refine ⟨by decide, by rfl, by decide, fun k => ?_⟩
+  by_cases ha : k = "a"
+  · subst ha; rfl
+  · by_cases hb : k = "b"
+    · subst hb; rfl
+    · simp [getA, lookup, ha, hb, exU]
 
 end Typedpy.C11
